@@ -311,16 +311,16 @@ def exact_shell_worker(part, spec):
                 shells = {}
                 for si, t, p in imgs:
                     d = float(np.linalg.norm(p - cen))
-                    if excl_self and d < 1e-9:
+                    if excl_self and not (d >= 1e-9):
                         continue
                     if d <= radius + max(cell):
                         shells.setdefault(round(d, 9), []).append(p)
                 rep = {tuple(np.round(p, 6)) for p in pos.reshape(-1, 3)}
                 for d, members in sorted(shells.items()):
                     present = sum(1 for p in members if tuple(np.round(p, 6)) in rep)
-                    if d < radius - 1e-9 and present != len(members):
+                    if not (d >= radius - 1e-9) and present != len(members):
                         part.fail("exact-shell:missing:" + query, "%s(r=%g) in %s: %d of the %d atoms at distance %g are missing" % (query, radius, label, len(members) - present, len(members), d), case)
-                    elif d > radius + 1e-9 and present:
+                    elif not (d <= radius + 1e-9) and present:
                         part.fail("exact-shell:extra:" + query, "%s(r=%g) in %s: %d atoms at distance %g are reported" % (query, radius, label, present, d), case)
                     elif abs(d - radius) <= 1e-9 and present not in (0, len(members)) and all(float(np.linalg.norm(p - cen)) == radius for p in members):
                         part.fail("exact-shell:boundary-not-uniform:" + query, "%s(r=%g) in %s: %d of the %d equivalent atoms at distance exactly %g are reported, the others are not"
